@@ -122,6 +122,14 @@ func roundTrip(run *core.Run, d string, origin string) bool {
 		run.Violation("text-not-byte-stable", c, d2, d3)
 		return true
 	}
+	// the text stays stable however often it is rendered (map iteration inside the printer must not leak)
+	for k := 0; k < 4; k++ {
+		dk, err := transformer.TransformJSONProtoToDSL(m3)
+		if err != nil || dk != d2 {
+			run.Violation("text-not-byte-stable", c, d2, dk+fmt.Sprint(err))
+			return true
+		}
+	}
 	if !proto.Equal(m2, m3) {
 		run.Violation("model-not-stable", c, "M3 == M2", d2)
 		return true
